@@ -128,6 +128,10 @@ func main() {
 		}
 		r.Do("t6", append([]string{cfg.Tok(), "0"}, ops...)...)
 		r.Stat("class.dhcp-exchange", 1)
+		// the same class against the reference (kind t6c)
+		ops2 := g.DHCPExchangeHistory()
+		ips2, _ := tables.Candidates(cfg, ops2)
+		r.Do("t6c", append([]string{cfg.Tok(), "0", tables.IPsTok(ips2)}, ops2...)...)
 	}
 	for i := 0; i < nConf; i++ {
 		var ops []string
